@@ -423,6 +423,8 @@ struct Rewriter<'a> {
     call_stack: Vec<String>,
     /// closures kept as code whose value the verifier cannot see (no postcondition could be stated for them)
     unmodelled_closures: usize,
+    /// `kind:condition` of every loop of the body, in order (S-shape: loop invariants are attached by ordinal and hold at the loop head)
+    loop_heads: Vec<String>,
 }
 
 /// if `e` is `<recv>.lock()` / `.try_lock()` possibly followed by `.expect(..)` / `.unwrap()`, the lock's receiver key
@@ -643,6 +645,29 @@ impl<'a> Rewriter<'a> {
             if let Stmt::Local(l) = st {
                 let mut names = vec![];
                 collect_pat_idents(&l.pat, &mut names);
+                // `=Type`: a `let <name> = Type { .. }` / `Type::new(..)` under ANY name (a binding that is a wildcard `_` drops the value at
+                // once and does not count)
+                if !names.is_empty() {
+                    if let Some(init) = &l.init {
+                        let (is, ie) = self.src.range(init.expr.span());
+                        let itxt = norm_ws(&self.src.text[is..ie]);
+                        for k in 0..self.spec.after_let.len() {
+                            let (ref id, o, _opt, ref txt) = self.spec.after_let[k];
+                            if let Some(ty) = id.strip_prefix('=') {
+                                let starts = itxt.starts_with(ty) && itxt[ty.len()..].chars().next().map(|ch| !(ch.is_alphanumeric() || ch == '_')).unwrap_or(true);
+                                if starts {
+                                    let c = self.let_counts.entry(id.clone()).or_insert(0);
+                                    let ord = *c;
+                                    *c += 1;
+                                    if o == ord {
+                                        self.edits.push(Edit { start: se, end: se, text: format!("\n{}", txt), prio: 6 });
+                                        self.used_after_let[k] = true;
+                                    }
+                                }
+                            }
+                        }
+                    }
+                }
                 for name in names {
                     let c = self.let_counts.entry(name.clone()).or_insert(0);
                     let ord = *c;
@@ -951,6 +976,7 @@ impl<'a, 'ast> Visit<'ast> for Rewriter<'a> {
             Expr::While(w) => {
                 let n = self.loop_no;
                 self.loop_no += 1;
+                self.loop_heads.push(format!("while:{}", norm_ws(self.text(w.cond.span()))));
                 if let Some(inv) = self.spec.loops.get(&n) {
                     let (bs, _) = self.src.range(w.body.span());
                     self.edit(bs, bs, format!("\n{}\n", inv), 0);
@@ -960,6 +986,7 @@ impl<'a, 'ast> Visit<'ast> for Rewriter<'a> {
             Expr::Loop(l) => {
                 let n = self.loop_no;
                 self.loop_no += 1;
+                self.loop_heads.push("loop".to_string());
                 if let Some(inv) = self.spec.loops.get(&n) {
                     let (bs, _) = self.src.range(l.body.span());
                     self.edit(bs, bs, format!("\n{}\n", inv), 0);
@@ -969,6 +996,7 @@ impl<'a, 'ast> Visit<'ast> for Rewriter<'a> {
             Expr::ForLoop(l) => {
                 let n = self.loop_no;
                 self.loop_no += 1;
+                self.loop_heads.push(format!("for:{} in {}", norm_ws(self.text(l.pat.span())), norm_ws(self.text(l.expr.span()))));
                 let inv = self.spec.loops.get(&n).cloned().unwrap_or_default();
                 if self.spec.loops.contains_key(&n) {
                     self.used_loops.push(n);
@@ -1184,6 +1212,9 @@ fn main() {
     let mut files: BTreeMap<String, SourceFile> = BTreeMap::new();
     let mut notes: Vec<String> = vec![];
     let mut bodies: Vec<String> = vec![];
+    // shape of every extracted body: `func[#closure/async]\tloops` (the driver compares the loop count with the pinned one: invariants are
+    // attached to loops by ordinal, so a body with MORE loops than when the invariants were written cannot be judged)
+    let mut shapes: Vec<String> = vec![];
     let mut extracted_sites: Vec<String> = vec![];
     let mut stubbed: Vec<String> = vec![];
 
@@ -1507,6 +1538,7 @@ fn main() {
                 guard_scopes: vec![],
                 call_stack: vec![],
                 unmodelled_closures: 0,
+                loop_heads: vec![],
             };
             let (rs, re);
             if let Some(b) = region_block {
@@ -1601,6 +1633,7 @@ fn main() {
             out.push("}\n", &format!("tmpl:{}", spec.tmpl_line));
             let bl = src.line_of(rs);
             let el = src.line_of(re);
+            shapes.push(format!("{}{}\t{}", spec.func, if spec.closure.is_some() || spec.lift.is_some() { format!("#{:?}/{:?}", spec.closure, spec.lift) } else { String::new() }, rw.loop_heads.join(" || ")));
             bodies.push(format!("{}::{} ({}:{}-{}){}", spec.file, spec.func, spec.file, bl, el,
                 if spec.closure.is_some() || spec.lift.is_some() { format!(" [closure={:?} async={:?}]", spec.closure, spec.lift) } else { String::new() }));
             match &inl {
@@ -1644,6 +1677,11 @@ fn main() {
     for (i, b) in bodies.iter().enumerate() {
         if i > 0 { j.push(','); }
         let _ = write!(j, "\"{}\"", b.replace('\\', "\\\\").replace('"', "\\\""));
+    }
+    j.push_str("],\n \"shapes\": [");
+    for (i, b) in shapes.iter().enumerate() {
+        if i > 0 { j.push(','); }
+        let _ = write!(j, "\"{}\"", b.replace('\\', "\\\\").replace('"', "\\\"").replace('\t', "\\t"));
     }
     j.push_str("],\n \"regions\": [");
     for (i, b) in extracted_sites.iter().enumerate() {
